@@ -52,6 +52,11 @@ def check(run, prog, tier):
                     stale_truth = True
                 elif e["op"] in (">", "!=") and const_val(Rr) == 0:
                     stale_truth = False
+                # "a file that was looked for in vain has appeared": stale when check_times does not answer -1
+                elif e["op"] == "!=" and const_val(Rr) == -1:
+                    stale_truth = True
+                elif e["op"] == "==" and const_val(Rr) == -1:
+                    stale_truth = False
             elif e.get("op") in ("!=", "==") and {L.get("n"), Rr.get("n")} & {"driver_id", "config_id"}:
                 which = ({L.get("n"), Rr.get("n")} & {"driver_id", "config_id"}).pop()
                 label = "%s compared with the saved value" % which
@@ -70,7 +75,7 @@ def check(run, prog, tier):
              "driver_id": [x for x in tests if x[1].startswith("driver_id")],
              "config_id": [x for x in tests if x[1].startswith("config_id")],
              "name": [x for x in tests if x[1].startswith("program name")],
-             "include": [x for x in tests if "check_times(iname)" in x[1]],
+             "include": [x for x in tests if "check_times(iname" in x[1]],
              "inherit-source": [x for x in tests if "check_times(buf)" in x[1]],
              "inherit-binary": [x for x in tests if "check_times(file_name_two)" in x[1]]}
     for kind, lst in kinds.items():
@@ -110,7 +115,9 @@ def check(run, prog, tier):
                 why.append("the loop containing the test does not dominate the successful return")
             else:
                 body_entry = lb.blocks[H].succ[0]
-                p = lb.reach_avoiding([body_entry], lambda blk: blk.id == H, avoid_blocks=[bid]) if body_entry is not None else None
+                # an entry may be of more than one sort (a file that was included / a place where one was looked for in
+                # vain): every iteration has to pass one of the tests of this kind
+                p = lb.reach_avoiding([body_entry], lambda blk: blk.id == H, avoid_blocks=[x[0] for x in lst]) if body_entry is not None else None
                 # for the second test of a short-circuit pair (source || binary) reaching it requires passing the first
                 if p is not None and kind != "inherit-binary":
                     ok = False
@@ -222,9 +229,18 @@ def check(run, prog, tier):
                 cw.append((f.name, show(n["R"])))
             if (n.get("k") == "Asg" and strip(n["L"]).get("n") == "driver_id" and strip(n["L"]).get("d") in ("global", "static")):
                 dw.append(f.name)
-    okc = bool(cw) and all(fn == "init_binaries" and "st_mtim" in rhs for fn, rhs in cw)
+    okc = bool(cw) and all(fn == "init_binaries" and ("st_mtim" in rhs or rhs.strip() == "0") for fn, rhs in cw) and any("st_mtim" in rhs for fn, rhs in cw)
     simul = any(facts.any_in_macro(n["args"][0], "CONFIG_STR") and "SIMUL_EFUN" in "".join(str(x) for x in walk(n["args"][0])) or True for b, i, n in ib.calls("stat"))
     run.ob("C17-c", "config-id-source", okc and simul, "config_id writers: %s" % cw, ib.file, ib.line, "init_binaries", what="config_id is not (only) the simul_efun file's mtime: %s" % cw)
+    # the stamp is taken from the simul_efun *source file inside the mudlib*: the configured value is an object name
+    # ("/secure/simul_efun"), so stat() must be given a name derived from it (strip_name + ".c"), not the raw setting,
+    # which would be looked up at the root of the host's file system
+    sts = [(b, i, n) for b, i, n in ib.calls("stat")]
+    raw = [n.get("l") for b, i, n in sts if facts.any_in_macro(n["args"][0], "CONFIG_STR") or "config_str" in show(n["args"][0])]
+    derived_ok = bool(sts) and not raw and any(n2.get("fn") == "strip_name" for b2, i2, n2 in ib.calls())
+    run.ob("C17-c", "config-id-path", derived_ok, "stat() is given a mudlib-relative name made by strip_name() from the configured object name" if derived_ok else
+           "stat() at line %s is given the configured simul_efun object name as it is (an absolute path on the host): the stamp is always 0 and a changed simul_efun file never invalidates the binaries" % (raw[0] if raw else "?"),
+           ib.file, (raw[0] if raw else ib.line), "init_binaries", what="config_id is not taken from the simul_efun source file inside the mudlib")
     run.ob("C17-c", "driver-id-const", not dw, "driver_id has no writers" if not dw else "driver_id written by %s" % dw, sb.file, None, None, what="driver_id is modified at run time by %s" % dw)
 
     # ---- C17-e every file the lexer opens for a program is recorded in the include list the binary is checked against
@@ -258,3 +274,31 @@ def check(run, prog, tier):
     okh = bool(opens) and bool(apfc) and all(const_val(n["args"][1]) == 0 for b, i, n in apfc if len(n.get("args", [])) > 1)
     run.ob("C17-e", "include-registers", okh, "handle_include registers the opened file with add_program_file(name, 0)" if okh else "handle_include does not call add_program_file(.., 0) for the file it opened", hi.file, hi.line, "handle_include",
            what="handle_include opens an include file without registering it in the program's include list")
+
+    # ---- C17-f the places where an #include looked for its file in vain are part of what the binary depends on
+    run.rule("C17-f", "inc_open: after an open() of a candidate path failed, the search goes on to the next candidate only through a call that records the failed candidate (a file appearing there later changes what a fresh compile includes, so the binary must go stale)", 1)
+    io = run.need(prog.func("inc_open"), "inc_open")
+    run.saw(io)
+    opens = [(b, i, n) for b, i, n in io.calls() if n.get("fn") in ("open", "open64", "_open")]
+    run.need(len(opens) >= 2, "open() attempts in inc_open (found %d)" % len(opens))
+    recs = {b.id for b, i, n in io.calls() if (n.get("fn") or "").startswith("add_program_file")}
+    bad = []
+    for b, i, n in opens:
+        # the failure edge of `(fd = open(..)) != -1`
+        c = io.branch_cond(b.id)
+        if c is None or not any(x is n for x in walk(c)):
+            continue
+        op, l, r = atom_of(c, True)
+        fail = None
+        if r is not None and const_val(r) == -1:
+            fail = io.blocks[b.id].succ[1] if op == "!=" else (io.blocks[b.id].succ[0] if op == "==" else None)
+        if fail is None:
+            continue
+        others = {b2.id for b2, i2, n2 in opens if n2 is not n}
+        # next attempt (another open, or the same one in the next round of the directory loop) without recording
+        p = io.reach_avoiding([fail], lambda blk, o=others, me=b.id: blk.id in o or blk.id == me, avoid_blocks=recs)
+        if p is not None:
+            bad.append((n.get("l"), p[:8]))
+    run.ob("C17-f", "absent-candidates-recorded", not bad and bool(recs), "every failed candidate is recorded before the next one is tried (%d open sites)" % len(opens) if not bad and recs else
+           ("after the failed open() at line %s the search goes on (path %s) without recording the candidate: a header created there later is not noticed by load_binary()" % bad[0] if bad else "inc_open records nothing"),
+           io.file, bad[0][0] if bad else io.line, "inc_open", what="inc_open does not record the include candidates that did not exist")
